@@ -31,9 +31,11 @@ def quiet(fn, *a, **k):
 
 
 def degs(edges, by_size=True):
+    """degree = number of hyperedges containing the node (a node listed twice in one hyperedge counts once,
+    as in the library's own degree queries)"""
     d = Counter()
     for e in edges:
-        for n in e:
+        for n in set(e):
             d[(n, len(e)) if by_size else n] += 1
     return d
 
@@ -219,8 +221,9 @@ def directed_case(ctx, rng, idx):
             continue
         out = [(tuple(e[0]), tuple(e[1])) for e in r.get_edges()]
         ctx.check("C13:output", observe(h).same(S0, with_hgmd=True), "C13:directed:mutated-input", wit)
-        ind = Counter(n for s, t in out for n in s)
-        outd = Counter(n for s, t in out for n in t)
+        ind = Counter(n for s, t in out for n in set(s))
+        outd = Counter(n for s, t in out for n in set(t))
+        ctx.check("C13:output", all(len(set(s)) == len(s) and len(set(t)) == len(t) for s, t in out), "C13:directed:repeated-node-in-a-side-of-an-output-hyperedge", lambda: wit(out))
         worse = [n for n in ind if ind[n] > ind0.get(n, 0)] + [n for n in outd if outd[n] > outd0.get(n, 0)]
         ctx.check("C13:output", not worse, "C13:directed:in-or-out-degree-increased", lambda: wit({"out": out, "offending": worse[:5], "diag": chain["bad"]}))
         if len(out) == len(edges):
